@@ -193,6 +193,39 @@ def _wiring(prog, rep, fi, call):
             return node.id
         return None
 
+    # options= : a transparent wrapper puts a key there only when the caller supplied the value; a key filled with a
+    # value of the wrapper's own when the argument is None replaces SciPy's per-method default (L-BFGS-B 15000 iterations,
+    # SLSQP 100, ...) for every method
+    if "options" in kw:
+        ov = kw["options"]
+        if isinstance(ov, ast.IfExp):
+            ov = ov.body if not (isinstance(ov.body, ast.Constant) and ov.body.value is None) else ov.orelse
+        odict = None
+        if isinstance(ov, ast.Name):
+            vals_ = [v for v in assigns.get(ov.id, []) if isinstance(v, ast.AST)]
+            if len(vals_) == 1 and isinstance(vals_[0], ast.Dict):
+                odict = (ov.id, vals_[0])
+        elif isinstance(ov, ast.Dict):
+            odict = (None, ov)
+        params_ = {a.arg for a in a_.args + a_.kwonlyargs}
+        if odict is not None:
+            for kk, vv in zip(odict[1].keys, odict[1].values):
+                if not isinstance(kk, ast.Constant):
+                    continue
+                own = None
+                if isinstance(vv, ast.IfExp) and isinstance(vv.test, ast.Compare) and isinstance(vv.test.comparators[0], ast.Constant) and vv.test.comparators[0].value is None and isinstance(vv.test.left, ast.Name) and vv.test.left.id in params_:
+                    own = vv.orelse if isinstance(vv.test.ops[0], ast.IsNot) else vv.body
+                elif isinstance(vv, ast.BoolOp) and isinstance(vv.op, ast.Or) and isinstance(vv.values[0], ast.Name) and vv.values[0].id in params_:
+                    own = vv.values[-1]
+                elif isinstance(vv, ast.Constant) and vv.value is not None:
+                    own = vv
+                if own is not None and not (isinstance(own, ast.Constant) and own.value is None):
+                    rep.ob("R09.1", f"{fname}:minimize(options=)", False,
+                           f"options[{kk.value!r}] is `{src(vv)[:50]}`: when the caller gives no value the wrapper supplies `{src(own)[:30]}` of its own, for every method -- SciPy's per-method default (e.g. 15000 iterations for L-BFGS-B) no longer applies, "
+                           f"so the solve is not the one a direct scipy.optimize.minimize call performs",
+                           loc=f"{fi.module.rel}:{vv.lineno}", detail=f"options-transparent:{kk.value}", robust=True)
+            if not odict[1].keys:
+                rep.ob("R09.1", f"{fname}:minimize(options=)", True, "options start empty; keys are added only for arguments the caller supplied", loc=f"{fi.module.rel}:{odict[1].lineno}", detail="options-transparent", robust=True)
     roles = {"fun": "obj_fn", "jac": "grad_fn", "hess": "hess_fn", "bounds": "bounds", "constraints": "scipy_constraints"}
     for k, key in roles.items():
         if k not in kw and opaque_kw:
